@@ -5,7 +5,7 @@ import ast
 
 from .. import clifford as cl
 from ..chains import extract_chains
-from ..core import AnalysisError, call_attr, call_name, calls_in, func_params, norm, parent, short
+from ..core import AnalysisError, get_kw, call_attr, call_name, calls_in, func_params, norm, parent, short
 from ..driver import Knockout, sub_nth, sub_once
 from ..report import Ctx
 from ..rules import gatesum, loops, tables
@@ -43,6 +43,7 @@ def run(ctx: Ctx) -> None:
     rule_lc_check_inversion(ctx)
     rule_lc_toggle(ctx)
     rule_find_lc_binding(ctx)
+    rule_lc_position(ctx)
     from ..rules import tableau as _tb
     _tb.rule_sign_carry(ctx, [SRC, LCC])
     loops.rule_trial_fresh(ctx, LCE)
@@ -243,6 +244,33 @@ def rule_find_lc_binding(ctx: Ctx) -> None:
         raise AnalysisError("lc.sequence-source: no lc_graph_operations call fed by is_lc_equivalent found")
 
 
+def rule_lc_position(ctx: Ctx) -> None:
+    """lc.position: local_comp_graph works on an adjacency matrix and uses the vertex *label* `node_id` as a matrix position (and
+    returns a graph labelled by position).  Label and position coincide only if the matrix is built in label order
+    (`nodelist=sorted(g.nodes())` / `range(n)`), or the position is looked up (`list(g.nodes()).index(node_id)`)."""
+    repo = ctx.repo
+    m = repo.module(LCE)
+    fn = repo.anchor(LCE, "local_comp_graph")
+    ctx.touch(m, fn)
+    gp, vp = func_params(fn)[:2]
+    mats = [c for c in calls_in(fn) if call_attr(c) in ("to_numpy_array", "adjacency_matrix") and c.args and norm(c.args[0]) == gp]
+    if not mats:
+        raise AnalysisError("local_comp_graph: adjacency matrix of the input graph not found")
+    uses_label = any(isinstance(x, ast.Subscript) and any(isinstance(y, ast.Name) and y.id == vp for y in ast.walk(x.slice)) for x in ast.walk(fn))
+    for c in mats:
+        nl = get_kw(c, "nodelist")
+        t = norm(nl) if nl is not None else None
+        by_label = t is not None and (t.startswith("sorted(") or t.startswith("range(") or t.startswith("list(range("))
+        if by_label or not uses_label:
+            ctx.ok("lc.position", m, c, what="matrix position = vertex label")
+        else:
+            ctx.fail("lc.position", m, c,
+                     f"local_comp_graph builds `{short(c)}` in the graph's node-insertion order but indexes it with the vertex label `{vp}`: for a "
+                     f"graph whose nodes were not inserted in sorted order the complementation is applied to a different vertex (star centred at "
+                     f"0 with node order [2, 0, 1, 3]: LC at 0 returns a path-like graph instead of K4)", func="local_comp_graph",
+                     construct="local_comp_graph: label used as position in an insertion-ordered matrix")
+
+
 def rule_lc_toggle(ctx: Ctx) -> None:
     repo = ctx.repo
     m = repo.module(GRAPH)
@@ -292,6 +320,7 @@ def rule_lc_toggle(ctx: Ctx) -> None:
 
 
 KNOCKOUTS = [
+    Knockout("lc-matrix-insertion-order", LCE, sub_once("        input_graph, nodelist=sorted(input_graph.nodes())\n", "        input_graph\n"), "lc.position", "label used as position", on_fixed_only=True),
     Knockout("find-lc-second-graph", LCE, sub_once("        op_list = lc_graph_operations(adj_matrix1, solution)", "        op_list = lc_graph_operations(adj_matrix2, solution)"), "lc.sequence-source", "second graph", on_fixed_only=True),
     Knockout("clifford-input-signs-dropped", SRC, sub_once("        tab = state.to_stabilizer()\n", "        tab = StabilizerTableau(state.stabilizer)\n"), "sign.carry", "without signs"),
     Knockout("det-not-reduced", LCE, sub_once("checklist.append(int(determinant_of_clifford % 2))", "checklist.append(int(determinant_of_clifford))"), "gf2.truth", "unreduced"),
